@@ -31,6 +31,7 @@ import (
 	"fmt"
 	"math"
 	"math/rand"
+	"net"
 	"runtime"
 	"strings"
 	"sync"
@@ -39,7 +40,9 @@ import (
 
 	"tunnox-core/internal/cloud/models"
 	"tunnox-core/internal/cloud/stats"
+	coreerrors "tunnox-core/internal/core/errors"
 	"tunnox-core/internal/core/storage"
+	"tunnox-core/internal/packet"
 	"tunnox-core/internal/protocol/session"
 	"tunnox-core/verifharness/drivers/c08/wire"
 	"tunnox-core/verifharness/fw"
@@ -246,6 +249,10 @@ type world struct {
 	cancel context.CancelFunc
 	period time.Duration
 	nTgt   int
+	onNode map[string]string       // model tunnel -> node its source end waits on
+	regs   map[string]int          // model tunnel -> registrations so far
+	peers  map[string]*peer        // arrive mode: stand-ins for the nodes' cross-node listeners
+	tconn  map[string]*srvkit.Conn // arrive mode: "m/t" -> the forwarded target connection held at m
 
 	// gated mode
 	sch      *sched.Sched
@@ -260,6 +267,9 @@ type world struct {
 }
 
 func (wd *world) Close() {
+	for _, p := range wd.peers {
+		p.ln.Close()
+	}
 	if wd.sch != nil {
 		wd.sch.Drain(2 * time.Second)
 	}
@@ -288,7 +298,8 @@ func newWorld(env *fw.Env, b fw.Behaviour, beh behaviour) (*world, error) {
 		seed = seed*31 + int64(c)
 	}
 	wd := &world{beh: beh, w: w, nodes: nodes, rt: map[string]*session.TunnelRoutingTable{}, srv: map[string]*srvkit.Server{}, cloud: map[string]*cloudStub{},
-		addrs: map[string]string{}, ids: map[string]string{}, want: map[string]fields{}, mapOf: map[string]string{}, rng: rand.New(rand.NewSource(seed)), cancel: cancel}
+		addrs: map[string]string{}, ids: map[string]string{}, want: map[string]fields{}, mapOf: map[string]string{}, rng: rand.New(rand.NewSource(seed)), cancel: cancel,
+		onNode: map[string]string{}, regs: map[string]int{}, peers: map[string]*peer{}, tconn: map[string]*srvkit.Conn{}}
 	if beh.Mode == "gated" {
 		wd.sch = sched.New(false)
 		wd.sch.Watchdog = 2 * time.Second
@@ -315,6 +326,29 @@ func newWorld(env *fw.Env, b fw.Behaviour, beh behaviour) (*world, error) {
 	}
 	for _, n := range nodes {
 		wd.rt[n] = session.NewTunnelRoutingTable(w.Stores[n], wd.period)
+		if beh.Mode == "arrive" {
+			// real SessionManager per node for the target's arrival path: routing table, a tunnel handler
+			// that lets authenticated connections through, a CrossNodePool that dials the address the
+			// routing table holds for the source node - a peer listener standing in for its CrossNodeListener
+			s, err := srvkit.NewServer(srvkit.Options{NodeID: "node-" + n, HeartbeatTimeout: time.Hour, CleanupInterval: time.Hour, NoConnState: true})
+			if err != nil {
+				wd.Close()
+				return nil, err
+			}
+			wd.srv[n] = s
+			s.SM.SetTunnelRoutingTable(wd.rt[n])
+			s.SM.SetTunnelHandler(refuseTunnels{})
+			pc := session.DefaultCrossNodePoolConfig()
+			pc.MinConns, pc.MaxConns, pc.DialTimeout = 0, 4, 2*time.Second
+			s.SM.SetCrossNodePool(session.NewCrossNodePool(s.Ctx, w.Stores[n], "node-"+n, pc))
+			ln, err := net.Listen("tcp", "127.0.0.1:0")
+			if err != nil {
+				wd.Close()
+				return nil, err
+			}
+			wd.peers[n] = &peer{node: n, ln: ln}
+			go wd.peers[n].serve()
+		}
 		if beh.Mode == "site" || beh.Mode == "gated" {
 			s, err := srvkit.NewServer(srvkit.Options{NodeID: "node-" + n, HeartbeatTimeout: time.Hour, CleanupInterval: time.Hour, NoConnState: true})
 			if err != nil {
@@ -338,7 +372,7 @@ func (wd *world) lookup(m, t string) fw.Event {
 	ev := fw.Event{"ev": "Lookup", "m": m, "t": t, "node": "-", "fieldsEqual": false, "addrOk": false}
 	id, ok := wd.ids[t]
 	if !ok { // never registered in this behaviour: a replayed id nobody knows
-		id = genTunnelID(wd.rng, wd.beh.Cls, t)
+		id = wd.newID(t)
 		wd.ids[t] = id
 	}
 	st, err := wd.rt[m].LookupWaitingTunnel(context.Background(), id)
@@ -449,6 +483,7 @@ func (wd *world) register(n, t, loc string) (fw.Event, *fw.Trace) {
 		}
 		f.TunnelID = id
 		wd.ids[t], wd.want[t], wd.mapOf[t] = id, f, f.MappingID
+		wd.onNode[t] = n
 		ev["ok"] = true
 		if notified != nil {
 			// startSourceBridge notifies the local target client asynchronously (a command written to
@@ -461,8 +496,12 @@ func (wd *world) register(n, t, loc string) (fw.Event, *fw.Trace) {
 		return ev, nil
 	}
 	if _, ok := wd.ids[t]; !ok {
-		wd.ids[t] = genTunnelID(wd.rng, wd.beh.Cls, t)
+		wd.ids[t] = wd.newID(t)
 	}
+	if wd.regs[t]++; wd.regs[t] > 1 {
+		ev["cls"] = fmt.Sprint(ev["cls"]) + ":reused-id"
+	}
+	wd.onNode[t] = n
 	f := genFields(wd.rng, wd.beh.Cls, wd.ids[t])
 	st := &session.TunnelWaitingState{TunnelID: f.TunnelID, MappingID: f.MappingID, SecretKey: f.SecretKey, SourceNodeID: "node-" + n,
 		SourceClientID: f.SourceClientID, TargetClientID: f.TargetClientID, TargetHost: f.TargetHost, TargetPort: f.TargetPort}
@@ -475,8 +514,176 @@ func (wd *world) register(n, t, loc string) (fw.Event, *fw.Trace) {
 	return ev, nil
 }
 
+// newID concretises a model tunnel id.  In arrive mode ids stay within the 16 bytes the cross-node
+// frame header carries (longer ids are C10's subject).
+func (wd *world) newID(t string) string {
+	if wd.beh.Mode == "arrive" {
+		return fmt.Sprintf("tun-%s-%06x", t, wd.rng.Intn(1<<24))
+	}
+	return genTunnelID(wd.rng, wd.beh.Cls, t)
+}
+
+// shutdown closes node n's SessionManager (site mode) - its context is cancelled, its bridges end and
+// runBridgeLifecycle removes their records with that cancelled context - or, at the RoutingTable API
+// level (direct mode), removes the records of the tunnels waiting on n with a cancelled context, as
+// that call site does.  One Remove event (why = shutdown) per tunnel that was waiting on n.
+func (wd *world) shutdown(n string) []fw.Event {
+	var mine []string
+	for _, t := range []string{"t1", "t2", "t3"} {
+		if wd.onNode[t] == n {
+			mine = append(mine, t)
+		}
+	}
+	if wd.beh.Mode == "site" {
+		wd.srv[n].SM.Close()
+		deadline := time.Now().Add(3 * time.Second)
+		for _, t := range mine {
+			for time.Now().Before(deadline) {
+				if _, err := wd.w.Stores[n].Get(waitingPrefix + wd.ids[t]); err != nil {
+					break
+				}
+				time.Sleep(time.Millisecond)
+			}
+		}
+	} else {
+		ctx, cancel := context.WithCancel(context.Background())
+		cancel()
+		for _, t := range mine {
+			wd.rt[n].RemoveWaitingTunnel(ctx, wd.ids[t])
+		}
+	}
+	var evs []fw.Event
+	for _, t := range mine {
+		delete(wd.onNode, t)
+		evs = append(evs, fw.Event{"ev": "Remove", "n": n, "t": t, "why": "shutdown"})
+	}
+	return evs
+}
+
+// ---- arrive mode: the target's TunnelOpen through the session layer -----------------------------
+
+// refuseTunnels is the tunnel handler of arrive mode.  handleTunnelOpen asks it to validate the
+// request (authentication / credentials: C04's subject) before it consults bridges and the
+// routing table; here every authenticated connection is let through.
+type refuseTunnels struct{}
+
+func (refuseTunnels) HandleTunnelOpen(c session.ControlConnectionInterface, _ *packet.TunnelOpenRequest) error {
+	if c == nil || !c.IsAuthenticated() {
+		return errors.New("not authenticated")
+	}
+	return nil
+}
+
+// peer accepts the dedicated connections another node's session layer dials when it forwards a
+// target connection, records the TargetReady frames (tunnel ids) and keeps the connection open.
+type peer struct {
+	node string
+	ln   net.Listener
+	mu   sync.Mutex
+	got  []string
+}
+
+func (p *peer) serve() {
+	for {
+		c, err := p.ln.Accept()
+		if err != nil {
+			return
+		}
+		go func(c net.Conn) {
+			defer c.Close()
+			for {
+				_, ft, data, err := session.ReadFrameFromReader(c)
+				if err != nil {
+					return
+				}
+				if ft == session.FrameTypeTargetReady {
+					id, _, _ := session.DecodeTargetReadyMessage(data)
+					p.mu.Lock()
+					p.got = append(p.got, id)
+					p.mu.Unlock()
+				}
+			}
+		}(c)
+	}
+}
+
+func (p *peer) has(id string) bool {
+	p.mu.Lock()
+	defer p.mu.Unlock()
+	for i, g := range p.got {
+		if g == id {
+			p.got = append(p.got[:i], p.got[i+1:]...)
+			return true
+		}
+	}
+	return false
+}
+
+func (wd *world) arrive(m, t string) (fw.Event, *fw.Trace) {
+	ev := fw.Event{"ev": "Arrive", "m": m, "t": t, "node": "-"}
+	id, ok := wd.ids[t]
+	if !ok {
+		id = wd.newID(t)
+		wd.ids[t] = id
+	}
+	c, err := wd.srv[m].NewConn(fmt.Sprintf("10.8.0.%d", 1+len(wd.tconn)))
+	if err != nil {
+		return nil, &fw.Trace{Status: fw.DriverError, Note: "arrive: " + err.Error()}
+	}
+	// the target client's tunnel connection authenticates first (a real first-connect handshake of
+	// connection type "tunnel"), as the client does before it sends TunnelOpen
+	if id, _, _, err := c.FirstConnect("tunnel"); err != nil || id == 0 {
+		return nil, &fw.Trace{Status: fw.DriverError, Note: fmt.Sprintf("arrive: tunnel-connection handshake refused (id=%d err=%v)", id, err)}
+	}
+	f := wd.want[t]
+	body, _ := json.Marshal(&packet.TunnelOpenRequest{TunnelID: id, MappingID: f.MappingID, SecretKey: f.SecretKey})
+	_, herr, err := c.Send(&packet.TransferPacket{PacketType: packet.TunnelOpen, Payload: body})
+	if err != nil {
+		return nil, &fw.Trace{Status: fw.DriverError, Note: "arrive: " + err.Error()}
+	}
+	if coreerrors.IsCode(herr, coreerrors.CodeTunnelModeSwitch) {
+		// forwarded: the TargetReady frame has been written; find out which node's listener got it
+		deadline := time.Now().Add(time.Second)
+		for ev["node"] == "-" && time.Now().Before(deadline) {
+			for n, p := range wd.peers {
+				if p.has(id) {
+					ev["node"] = n
+				}
+			}
+			if ev["node"] == "-" {
+				time.Sleep(200 * time.Microsecond)
+			}
+		}
+		ev["r"] = "forward"
+		wd.tconn[m+"/"+t] = c
+		return ev, nil
+	}
+	ev["r"] = "refused"
+	if herr != nil {
+		ev["err"] = short(herr.Error())
+	}
+	c.Disconnect()
+	return ev, nil
+}
+
+// targetGone: the forwarded target connection held at m goes away; the forwarding ends and m
+// remembers the tunnel id as ended
+func (wd *world) targetGone(m, t string) (fw.Event, *fw.Trace) {
+	c := wd.tconn[m+"/"+t]
+	if c == nil {
+		return nil, &fw.Trace{Status: fw.Unrealisable, Note: "no forwarded target connection of " + t + " on " + m}
+	}
+	delete(wd.tconn, m+"/"+t)
+	c.T.Close()
+	for t0 := time.Now(); time.Since(t0) < time.Second && !wd.srv[m].SM.IsTunnelClosed(wd.ids[t]); {
+		time.Sleep(200 * time.Microsecond)
+	}
+	return fw.Event{"ev": "TargetGone", "m": m, "t": t, "marked": wd.srv[m].SM.IsTunnelClosed(wd.ids[t])}, nil
+}
+
 func (wd *world) remove(n, t string) (fw.Event, *fw.Trace) {
 	ev := fw.Event{"ev": "Remove", "n": n, "t": t}
+	delete(wd.onNode, t)
 	if wd.beh.Mode == "site" {
 		sm := wd.srv[n].SM
 		br := sm.GetTunnelBridgeByMappingID(wd.mapOf[t], 0)
@@ -522,6 +729,9 @@ func (wd *world) raceRounds(env *fw.Env, t *fw.Trace) *fw.Trace {
 		err := wd.rt[n].RegisterNodeAddress("node-"+n, addr)
 		wd.addrs[n] = addr
 		t.Events = append(t.Events, fw.Event{"ev": "Announce", "n": n, "ok": err == nil})
+	}
+	if wd.beh.Cls == "concurrent-registrations" {
+		return wd.concurrentRegistrations(box, t)
 	}
 	short := session.NewTunnelRoutingTable(wd.w.Stores["A"], 100*time.Microsecond)
 	long := session.NewTunnelRoutingTable(wd.w.Stores["A"], time.Hour)
@@ -588,6 +798,79 @@ func (wd *world) raceRounds(env *fw.Env, t *fw.Trace) *fw.Trace {
 			break
 		}
 		long.RemoveWaitingTunnel(ctx, id)
+	}
+	stop = true
+	gen.Add(1)
+	t.Events[0]["rounds"] = rounds
+	t.Events = append(t.Events, last...)
+	return t
+}
+
+// concurrentRegistrations repeats, for a time box: 16 source ends register 16 DIFFERENT tunnel ids
+// with different data at the same moment (spin barrier; more than the Redis client's pool of 10
+// connections), alternating between the two nodes; when all have returned, every id must resolve
+// from the other node to exactly its own data.  Tunnels must not interfere.  The trace is one
+// registration (the first that does not resolve to its data, else the last) and its lookups.
+func (wd *world) concurrentRegistrations(box time.Duration, t *fw.Trace) *fw.Trace {
+	ctx := context.Background()
+	const k = 16
+	reg := map[string]*session.TunnelRoutingTable{"A": session.NewTunnelRoutingTable(wd.w.Stores["A"], time.Hour), "B": session.NewTunnelRoutingTable(wd.w.Stores["B"], time.Hour)}
+	var gen, done atomic.Int64
+	var fs [k]fields
+	var errs [k]error
+	stop := false
+	for i := 0; i < k; i++ {
+		go func(i int) {
+			last := int64(0)
+			for {
+				for gen.Load() == last {
+					runtime.Gosched()
+				}
+				last = gen.Load()
+				if stop {
+					return
+				}
+				n := []string{"A", "B"}[i%2]
+				f := fs[i]
+				errs[i] = reg[n].RegisterWaitingTunnel(ctx, &session.TunnelWaitingState{TunnelID: f.TunnelID, MappingID: f.MappingID, SecretKey: f.SecretKey,
+					SourceNodeID: "node-" + n, SourceClientID: f.SourceClientID, TargetClientID: f.TargetClientID, TargetHost: f.TargetHost, TargetPort: f.TargetPort})
+				done.Add(1)
+			}
+		}(i)
+	}
+	deadline := time.Now().Add(box)
+	rounds := 0
+	var last []fw.Event
+	for time.Now().Before(deadline) {
+		rounds++
+		for i := range fs {
+			cls := []string{"ascii", "unicode", "intext"}[wd.rng.Intn(3)]
+			fs[i] = genFields(wd.rng, cls, fmt.Sprintf("cr-%d-%d-%s", rounds, i, genString(wd.rng, "ascii", 1+wd.rng.Intn(24))))
+		}
+		done.Store(0)
+		gen.Add(1)
+		for done.Load() < k {
+			runtime.Gosched()
+		}
+		bad := k - 1
+		for i := k - 1; i >= 0; i-- {
+			n, m := []string{"A", "B"}[i%2], []string{"B", "A"}[i%2]
+			st, err := reg[m].LookupWaitingTunnel(ctx, fs[i].TunnelID)
+			if errs[i] != nil || err != nil || st == nil || fieldsOf(st) != fs[i] || st.SourceNodeID != "node-"+n {
+				bad = i
+			}
+		}
+		n := []string{"A", "B"}[bad%2]
+		wd.ids["t1"], wd.want["t1"] = fs[bad].TunnelID, fs[bad]
+		last = []fw.Event{{"ev": "Register", "n": n, "t": "t1", "cls": "concurrent-registrations", "period": 1, "ok": errs[bad] == nil},
+			wd.lookup("A", "t1"), wd.lookup("B", "t1")}
+		failed := last[1]["r"] != "found" || last[2]["r"] != "found" || last[1]["fieldsEqual"] != true || last[2]["fieldsEqual"] != true || last[1]["node"] != n
+		for i := range fs {
+			reg["A"].RemoveWaitingTunnel(ctx, fs[i].TunnelID)
+		}
+		if failed {
+			break
+		}
 	}
 	stop = true
 	gen.Add(1)
@@ -786,6 +1069,9 @@ func drive(env *fw.Env, b fw.Behaviour) *fw.Trace {
 			ev = fw.Event{"ev": "Tick"}
 		case "Announce":
 			addr := fmt.Sprintf("10.%d.%d.%d:50052", wd.rng.Intn(250), wd.rng.Intn(250), 1+wd.rng.Intn(250))
+			if p := wd.peers[s.N]; p != nil {
+				addr = p.ln.Addr().String()
+			}
 			err := wd.rt[s.N].RegisterNodeAddress("node-"+s.N, addr)
 			wd.addrs[s.N] = addr
 			ev = fw.Event{"ev": "Announce", "n": s.N, "ok": err == nil}
@@ -795,6 +1081,13 @@ func drive(env *fw.Env, b fw.Behaviour) *fw.Trace {
 			ev = wd.lookup(s.N, s.T)
 		case "Remove":
 			ev, bad = wd.remove(s.N, s.T)
+		case "Shutdown":
+			t.Events = append(t.Events, wd.shutdown(s.N)...)
+			continue
+		case "Arrive":
+			ev, bad = wd.arrive(s.N, s.T)
+		case "TargetGone":
+			ev, bad = wd.targetGone(s.N, s.T)
 		default:
 			return &fw.Trace{Status: fw.DriverError, Note: "unknown step " + s.A}
 		}
@@ -815,19 +1108,22 @@ func drive(env *fw.Env, b fw.Behaviour) *fw.Trace {
 // ---- jobs ---------------------------------------------------------------------------------------
 
 func mcJob(name, nodes, tunnels string, ttl, maxReg int, mode string, lifecycleFirst bool) fw.TLCJob {
-	lf, invs := "FALSE", "LookupExact LookupGone NoDev LookupPure"
+	lf, invs := "FALSE", "LookupExact LookupGone NoDev LookupPure ArriveExact"
 	if lifecycleFirst {
 		lf, invs = "TRUE", "LookupExact LookupGoneOrDev"
 	}
 	return fw.TLCJob{Name: name, Module: "Routing", Cfg: "Routing_mc.cfg", Workers: 4, Consts: map[string]string{
 		"NODES": nodes, "TUNNELS": tunnels, "TTL": fmt.Sprint(ttl), "MAXREG": fmt.Sprint(maxReg), "MODE": mode, "LF": lf,
-		"SKIP": "FALSE", "EVICT": "FALSE", "INVS": invs}}
+		"SKIP": "FALSE", "EVICT": "FALSE", "HCTX": "FALSE", "REJSEEN": "FALSE", "SHAPES": `{"identity", "jsonString", "jsonMap"}`, "INVS": invs}}
 }
 
 // altDesign checks one of the other designs: its only routes to a violation are its named deviation
 func altDesign(name, which string) fw.TLCJob {
 	j := mcJob(name, `{"A", "B"}`, `{"t1", "t2"}`, 1, 2, "atomic", false)
-	j.Consts[which], j.Consts["INVS"] = "TRUE", "LookupExactOrDev LookupGoneOrDev"
+	j.Consts[which], j.Consts["INVS"] = "TRUE", "LookupExactOrDev LookupGoneOrDev ArriveExactOrDev"
+	if which == "REJSEEN" {
+		j.Consts["MODE"], j.Consts["NODES"], j.Consts["TUNNELS"], j.Consts["SHAPES"] = "arrive", `{"A", "B", "C"}`, `{"t1"}`, `{"jsonString"}`
+	}
 	return j
 }
 
@@ -843,6 +1139,12 @@ func genJob(name, nodes, tunnels string, maxReg, maxClock, maxHist int, mode str
 	return fw.TLCJob{Name: name, Module: "Routing", Cfg: "Routing_gen.cfg", Workers: 1, Consts: map[string]string{
 		"NODES": nodes, "TUNNELS": tunnels, "MAXREG": fmt.Sprint(maxReg), "MAXCLOCK": fmt.Sprint(maxClock), "MAXHIST": fmt.Sprint(maxHist),
 		"MODE": mode, "LF": lf, "ONLY": only, "TTL": ttl}}
+}
+
+func arriveJob(name, nodes, tunnels string) fw.TLCJob {
+	j := mcJob(name, nodes, tunnels, 1, 2, "arrive", false)
+	j.Consts["SHAPES"] = `{"jsonString"}`
+	return j
 }
 
 // altSrc generates the schedules of the OTHER design - the bridge lifecycle started before the
@@ -877,13 +1179,17 @@ func main() {
 				mcJob("mc:split:lifecycle-first", ab, t2, 1, 2, "split", true),
 				altDesign("mc:skip-local-target", "SKIP"),
 				altDesign("mc:evicting-lookup", "EVICT"),
+				altDesign("mc:honour-context", "HCTX"),
+				altDesign("mc:reject-seen-ids", "REJSEEN"),
+				arriveJob("mc:arrive:3n1t", `{"A", "B", "C"}`, `{"t1"}`),
 			}
 			if env.Tier == "thorough" {
 				jobs = append(jobs,
 					mcJob("mc:atomic:2n2t:ttl2", ab, t2, 2, 3, "atomic", false),
 					mcJob("mc:atomic:3n3t", `{"A", "B", "C"}`, `{"t1", "t2", "t3"}`, 2, 2, "atomic", false),
 					mcJob("mc:split:2n2t:ttl2", ab, t2, 2, 3, "split", false),
-					mcJob("mc:split:3n2t", `{"A", "B", "C"}`, t2, 2, 2, "split", false))
+					mcJob("mc:split:3n2t", `{"A", "B", "C"}`, t2, 2, 2, "split", false),
+					arriveJob("mc:arrive:2n2t", ab, t2))
 			}
 			return jobs
 		},
@@ -896,6 +1202,7 @@ func main() {
 					genJob("gen:split", ab, t2, 2, 2, 9, "split", false, "all"),
 					genJob(altSrc, ab, t2, 2, 2, 9, "split", true, "dev"),
 					genJob("gen:ttl2", ab, t2, 2, 3, 9, "atomic", false, "all"),
+					genJob("gen:arrive", `{"A", "B", "C"}`, t1, 2, 2, 9, "arrive", false, "all"),
 				}
 			}
 			return []fw.TLCJob{
@@ -903,6 +1210,7 @@ func main() {
 				genJob("gen:split", ab, t1, 2, 2, 9, "split", false, "all"),
 				genJob(altSrc, ab, t1, 2, 2, 9, "split", true, "dev"),
 				genJob("gen:ttl2", ab, t1, 2, 3, 8, "atomic", false, "all"),
+				genJob("gen:arrive", ab, t1, 2, 1, 9, "arrive", false, "all"),
 			}
 		},
 		MaxBehSrc: func(env *fw.Env, src string) int {
@@ -914,6 +1222,8 @@ func main() {
 			case src == "gen:split":
 				return 90
 			case src == "gen:ttl2":
+				return 60
+			case src == "gen:arrive":
 				return 60
 			case src == altSrc:
 				return 54
@@ -932,7 +1242,7 @@ func main() {
 			seenBeh[src+key] = true
 			look := false
 			for _, s := range steps {
-				look = look || s.A == "Lookup"
+				look = look || s.A == "Lookup" || s.A == "Arrive"
 			}
 			split := false
 			for _, s := range steps {
@@ -970,6 +1280,23 @@ func main() {
 			var out []json.RawMessage
 			k := expandN // every wiring meets every value class as k runs over the behaviours
 			expandN++
+			if src == "gen:arrive" {
+				arr := false
+				for _, s := range steps {
+					arr = arr || s.A == "Arrive"
+				}
+				if !arr {
+					return nil
+				}
+				for i, be := range wire.Names {
+					cls := classes[(k+2*i)%len(classes)]
+					if cls == "big" {
+						cls = "unicode"
+					}
+					out = append(out, fw.MustJSON(behaviour{Be: be, Mode: "arrive", Cls: cls, Steps: stripLoc(steps)}))
+				}
+				return out
+			}
 			if src == "gen:ttl2" {
 				// waiting periods that are not whole seconds, in virtual time, on the Redis-backed wirings
 				for i, be := range []string{"redis", "tiered"} {
@@ -1007,6 +1334,10 @@ func main() {
 			for i := 0; i < n; i++ {
 				out = append(out, fw.MustJSON(behaviour{Be: "memory", Mode: "race", Cls: "reregister-race", Rep: i + 1}))
 			}
+			// overlapping registrations of different tunnels (driver-made rounds, see concurrentRegistrations)
+			for i := 0; i < n; i++ {
+				out = append(out, fw.MustJSON(behaviour{Be: wire.Names[i%len(wire.Names)], Mode: "race", Cls: "concurrent-registrations", Rep: i + 1}))
+			}
 			return out
 		},
 		SelfTest:    selfTest,
@@ -1030,6 +1361,9 @@ func main() {
 			"site mode places the mapping's target client (a real first-connect control connection) on the source node, on another node or nowhere before the source end registers",
 			"waiting periods of 1.5 s and 2.5 s run in virtual time on the Redis-backed wirings (miniredis fast-forward to 100 ms before the end, no sleep): the wall-clock ExpiresAt does not lapse there, only the store's own key lifetime is exercised",
 			"re-registration races (memory wiring): time-boxed rounds of three lookups and one re-registration of an id whose previous record has lapsed unswept, released by a spin barrier; only the lookups made after all four returned are judged",
+			"a node shutdown is SessionManager.Close of the source node (site mode) or, at the RoutingTable API level, RemoveWaitingTunnel with a cancelled context as runBridgeLifecycle passes it",
+			"arrive mode: records are registered through the RoutingTable API with ids of at most 16 bytes; the target's TunnelOpen goes through a real SessionManager of another node (after a real tunnel-type handshake; permissive tunnel handler, CrossNodePool dialling a peer listener that stands in for the source node's CrossNodeListener); the forwarding decision is the TargetReady frame that listener receives; arrivals at the source node itself (local-bridge path) are not driven",
+			"overlapping registrations: time-boxed rounds of 16 registrations of different ids released by a spin barrier, every id then read back from the other node",
 			"nodes are RoutingTable instances (site mode: srvkit SessionManagers with a cloud-control stub supplying the port mapping) of one process over one shared store",
 			"field values are generated (seeded), not exhaustive; strings are valid UTF-8 as every field arrives through JSON decoding in production",
 		},
